@@ -7,6 +7,7 @@ task has finished (future done), none is still tracked; schedules are made hosti
 after flush began and with sys.monitoring LINE yields inside deep/task; (3) post-close submissions either raise or run.
 """
 import os
+import sys
 import threading
 import time
 
@@ -23,7 +24,8 @@ RULE = ('task histories: 0-40 tasks, each ok / failing (Exception or BaseExcepti
         'non-trivial = at least one task failed or was still running when flush started; distinct by canonical history')
 ASSUMPTIONS = ['tasks are shorter than flush\'s own 10 s per-task wait', 'a refused post-close submission may raise any exception type']
 REQUIRE = {'tasks_tracked': 2000, 'flushes_checked': 300, 'flush_with_running_failure': 80, 'sends_checked': 1500,
-           'failed_sends': 100, 'unconvertible': 100, 'post_close_submits': 200, 'yield_points': 2000}
+           'failed_sends': 100, 'unconvertible': 100, 'post_close_submits': 200, 'yield_points': 2000,
+           'submits_during_flush': 30}
 
 
 def plan(tier, seed):
@@ -77,18 +79,59 @@ def case_tasks(seed, out, spec):
             _close(handler)
             return
     gated = any(k.startswith('gated') for k in plan_)
+    want_late = gated and r.chance(0.6)
 
     def releaser():
         flush_started.wait(10)
-        time.sleep(r.pick([0.0, 0.001, 0.01, 0.03]))
+        time.sleep(r.pick([0.0, 0.001, 0.01, 0.03]) + (0.05 if want_late else 0))
         release.set()
 
     helper = threading.Thread(target=releaser)
     helper.start()
+    late_during = {}
+    flush_tid = [None]
+
+    def submit_while_flushing():
+        # a submission made after flush() began: it must be refused, or be drained by that flush
+        flush_started.wait(10)
+        # only once flush() is demonstrably waiting on a task (a frame of deep/task below a blocking wait)
+        end = time.monotonic() + 2
+        waiting = False
+        while time.monotonic() < end and not waiting:
+            fr = sys._current_frames().get(flush_tid[0])
+            in_future_wait = False
+            while fr is not None:
+                fn = fr.f_code.co_filename
+                if os.path.join('concurrent', 'futures') in fn:
+                    in_future_wait = True      # blocked in Future.result(): flush is past its first statements
+                if in_future_wait and fn.endswith(os.path.join('deep', 'task', '__init__.py')):
+                    waiting = True
+                    break
+                fr = fr.f_back
+            if not waiting:
+                time.sleep(0.001)
+        if not waiting:
+            return
+        flag = {}
+
+        def late_task():
+            time.sleep(0.04)
+            flag['ran'] = True
+
+        try:
+            late_during['future'] = handler.submit_task(late_task)
+        except BaseException as e:  # noqa
+            late_during['refused'] = type(e).__name__
+
+    late_thread = None
+    if want_late:
+        late_thread = threading.Thread(target=submit_while_flushing)
+        late_thread.start()
     yld = inject.yielder(str(seed), p=0.4)
     result = {}
 
     def do_flush():
+        flush_tid[0] = threading.get_ident()
         flush_started.set()
         try:
             handler.flush()
@@ -97,6 +140,8 @@ def case_tasks(seed, out, spec):
             result['raised'] = e
         # postcondition evaluated right at return
         result['undone'] = [i for i, f in zip(accepted, futures) if not f.done()]
+        lf = late_during.get('future')
+        result['late_undone'] = lf is not None and not lf.done()
 
     with inject.LineInjector(lambda f: f.endswith(os.path.join('deep', 'task', '__init__.py')), yld) as inj:
         if r.chance(0.3):
@@ -132,6 +177,19 @@ def case_tasks(seed, out, spec):
     elif result.get('undone'):
         out.violation('flush:returned-early', 'flush() returned while tasks %s were unfinished' % result['undone'],
                       witness, replay)
+    if late_thread is not None:
+        late_thread.join(5)
+        out.count('submits_during_flush')
+        if result.get('late_undone'):
+            out.violation('submit:accepted-during-flush-not-drained',
+                          'a task submitted while flush() was waiting was accepted, yet flush returned before it '
+                          'finished (neither refused nor drained)', witness, replay)
+        lf = late_during.get('future')
+        if lf is not None:
+            try:
+                lf.exception(timeout=5)
+            except BaseException:  # noqa
+                pass
     with lock:
         wrong = {i: c for i, c in ran.items() if c != 1}
         missing = [i for i in accepted if i not in ran]
@@ -202,10 +260,14 @@ def case_push(seed, out, spec):
         if i is not None and kinds[i] == 'sendfail':
             raise fakegrpc.FakeRpcError('send %d failed' % i)
         if i is not None and kinds[i] == 'sendslow':
-            time.sleep(0.01)
+            time.sleep(slow[i])
         from deepproto.proto.tracepoint.v1.tracepoint_pb2 import SnapshotResponse
+        with completed_lock:
+            completed.append(i)
         return SnapshotResponse()
 
+    completed, completed_lock = [], threading.Lock()
+    slow = {i: r.pick([0.005, 0.02, 0.05]) for i in range(n)}
     grpc.channel.on_call = on_call
     pushers = {}
     errors = []
@@ -231,6 +293,9 @@ def case_push(seed, out, spec):
             handler.flush()
         except BaseException as e:  # noqa
             flush_exc = e
+        with completed_lock:
+            done_at_return = len(completed)
+        started_at_return = len(grpc.channel.calls)
         events = inj.events
     # judge at quiescence: give deliveries that flush did not wait for (a flush defect, reported above) time to land
     expect_calls = sum(1 for k in kinds if k != 'bad')
@@ -240,6 +305,11 @@ def case_push(seed, out, spec):
     _close(handler)
     replay = replay_spec(spec, seed)
     witness = {'kinds': kinds, 'app_threads': nthreads, 'flush_raised': repr(flush_exc), 'push_errors': errors[:3]}
+    want_ok = sum(1 for k_ in kinds if k_ in ('ok', 'sendslow'))
+    if flush_exc is None and not errors and done_at_return < want_ok:
+        out.violation('flush:returned-early', 'flush() returned when %d of %d deliverable snapshots had been sent '
+                                              '(%d sends started)' % (done_at_return, want_ok, started_at_return),
+                      dict(witness_base(kinds, nthreads)), replay_spec(spec, seed))
     if errors:
         out.violation('delivery:handover-raised', 'push_snapshot raised on the application thread: %s' % errors[:2],
                       witness, replay)
@@ -274,6 +344,10 @@ def case_push(seed, out, spec):
     out.case({'kinds': kinds, 'threads': nthreads}, nontrivial=any(k in ('bad', 'sendfail') for k in kinds),
              sample={'snapshots': kinds[:15], 'app_threads': nthreads, 'sends_seen': len(grpc.channel.calls),
                      'flush': 'returned' if flush_exc is None else repr(flush_exc)})
+
+
+def witness_base(kinds, nthreads):
+    return {'kinds': kinds, 'app_threads': nthreads}
 
 
 def run_shard(spec, out):
